@@ -196,6 +196,24 @@ func (v *PacketDslVisitorImpl) VisitPacketDefinition(ctx *gen.PacketDefinitionCo
 		}
 	}
 
+	// the encoders reserve the length field and fill it in once the target has been written: a target that
+	// comes first cannot be measured that way
+	if lengthField != nil {
+		targetName := lengthField.Attr.(*model.LengthFieldAttribute).TragetField.Name
+		for _, f := range fields {
+			if f == lengthField {
+				break
+			}
+			if f.Name == targetName {
+				v.BinModel.AddSyntaxError(&model.SyntaxError{
+					Line:            lengthField.Line,
+					Column:          lengthField.Column,
+					Msg:             "LengthOfField " + lengthField.Name + " must be declared before its target field " + targetName,
+					OffendingSymbol: nil,
+				})
+			}
+		}
+	}
 	for _, f := range fields {
 		if lengthField != nil && f.Name == lengthField.Attr.(*model.LengthFieldAttribute).TragetField.Name {
 			lengthField.LenAttr = &model.LengthOfAttribute{
